@@ -12,7 +12,7 @@ CLAIMED = {
                 note="selectors only; 'same error' compares exception type and message with file paths / addresses removed", tech=ENUM),
     "C10": dict(text="bundle trees of depth 3 with fan-out, 7 leaf kinds per level, flips at every level by flag and by flipped(), role of the instance, leaf widths, port vs internal: exact set of (name, width, direction) of the flattened ports against an independent parity / role oracle, and leaf-by-leaf pairing of a parent's bundle - or of an anonymous bundle made of a signal and differently named whole bundle instances - with the child's bundle port",
                 note="flags, kinds and small widths: solver-enumerated", tech=ENUM),
-    "C12": dict(text="the iteration order of every set created by the connectable classes is a SYMBOLIC choice vector (vlib/nondet.py) on 9 designs exercising each set-iterating rewriting site; serialized package and spice / spectre / verilog text must equal those of the canonical order; a counterexample is reported only if real sub-processes under different PYTHONHASHSEED values differ byte-wise; three concrete multi-process seeds (the 9 designs, the 7 example programs, a generator design with set-valued parameters) cover address- / str-hash-ordered behaviour the set model cannot express",
+    "C12": dict(text="the iteration order of every set created by the connectable classes is a SYMBOLIC choice vector (vlib/nondet.py) on 10 designs exercising each set-iterating rewriting site; serialized package and spice / spectre / verilog text must equal those of the canonical order; a counterexample is reported only if real sub-processes under different PYTHONHASHSEED values differ byte-wise; three concrete multi-process seeds (the 10 designs, the 7 example programs, a generator design with set-valued parameters) cover address- / str-hash-ordered behaviour the set model cannot express",
                 note="any order of a small id-/str-hashed set is assumed reachable for some process; dict order is insertion order by the language", tech=E1),
     "C13": dict(text="value dispatch for 11 ideal primitives (documented VLSIR names / pulse renaming), physical Mos, external module with every accepted value type; Prefixed(coef x 10^exp, prefix) incl. mantissas at the int64 boundary and 1e30; Scalar conversion of ints, floats, Decimals and every string of length <= 3 over a 13-character alphabet",
                 note="values realise at pydantic / protobuf / decimal: enumeration inside the stated boxes, no generalisation", tech=ENUM),
@@ -40,7 +40,7 @@ CLAIMED = {
                 note="values realise at the pydantic/protobuf boundary: bounded-exhaustive enumeration by the solver, no generalisation beyond the box", tech=E1),
     "C03": dict(text="index/slice normalisation kernels decided over UNBOUNDED integers (w, a, b) for each constant step in +-1..+-6; nested slice/concat/reference resolution through the real elaborator+exporter compared with Python list slicing inside a bounded box (W<=3); every in-range slice selecting a bit (any step) must be accepted",
                 note="trusted: CrossHair 0.0.110 + prelude work-arounds (pydantic validation stub, format stub), z3, closed-form CPython slice oracle, pkg_nets reader", tech=E1),
-    "C14": dict(text="the real source of hdl21/prefix.py executed symbolically over a Decimal model (two-integer coefficient/exponent, 28-digit context) with symbolic mantissas; unary ops for 25-digit mantissas, binary ops and comparisons in stated smaller boxes; QF_FP lemma for float() when computed by float multiplication",
+    "C14": dict(text="the real source of hdl21/prefix.py executed symbolically over a Decimal model (two-integer coefficient/exponent, 28-digit context) with symbolic mantissas; unary ops for 25-digit mantissas, binary ops and comparisons in stated smaller boxes; QF_FP lemma for float() when computed by float multiplication; a model-independent concrete grid on the real library as a fallback",
                 note="trusted: Decimal model (validated differentially against the real library on every run: gate), CrossHair/z3, CPython float(Decimal) correct rounding", tech=E1 + "; prefix.py source exec'ed over a Decimal model; z3 QF_FP query for float()"),
 }
 REASON_TODO = "check not built yet (work in progress; see DESIGN.md section 5)"
